@@ -87,8 +87,9 @@ CLAIMS = {
               "rejected), the replay through _most_general_(retrieve(...)) and the storing with the current row's flag, on every run. "
               "C05_cached_evaluator - the operator of those theorems instantiated with the P-model's evaluator of ANY basic condition "
               "(values encoded by their positions in the domains): their hypotheses are proved from the evaluator's partition theorem, so "
-              "caching the evaluation of a sub-condition is transparent for every history of incoming bindings, with nothing left abstract. "
-              "NOT proved: which yield_when_false a row was stored under and the composition of the call sites inside one evaluator - "
+              "caching the evaluation of a sub-condition is transparent for every history of incoming bindings, in either mode (false rows "
+              "asked for or not), with nothing left abstract. "
+              "NOT proved: a node evaluated under BOTH modes during the life of its cache, and the composition of the call sites inside one evaluator - "
               "covered by the correspondence check: every "
               "generated query (all shapes) is run twice with caching disabled and twice enabled on fresh objects and the four row "
               "multisets are compared with each other and with the specification, with cache-hit counts in the evidence; an eighth of "
